@@ -8,7 +8,7 @@ from ..common import GLOBAL_TRUSTED_BASE
 from ..model import call_many
 from ..pool import guarded, run_cases
 
-THEOREMS = ["C14_name_sanitised", "C14_merge_nodup", "C14_signature_once", "C14_examples"]
+THEOREMS = ["C14_name_sanitised", "C14_merge_nodup", "C14_signature_once", "C14_examples", "C14_rest_names_once_and_star_free", "C14_rest_parser_sanitises", "C14_rest_names_example"]
 ALLOWED_KEYS = {"typ", "doc", "default", "x_typ"}
 STYLES = ("rest", "google", "numpydoc")
 PNAMES = ["alpha", "beta", "gamma", "delta", "eps", "zeta", "return_type", "returns", "type"]
@@ -277,6 +277,29 @@ def worker(batch):
     return res
 
 
+REST_WILD = [":param", ":type", ":return", ":rtype", ":cvar", ":ivar", ":var", ":raises", ":", " ", "\n", "x", "y", "*args", "**kw", "kwargs", "***", "*",
+             " x:", " y:", " x: ", "int", "the value", "```int```", "::", "Doc line.", "\n\n", "    "]
+
+
+def rest_names_tie(texts):
+    import contextlib
+    import io
+    from cdd.shared.docstring_parsers import parse_docstring
+    ms = call_many("rest_parse", texts)
+    bad, n = [], 0
+    for t, m in zip(texts, ms):
+        try:
+            with contextlib.redirect_stderr(io.StringIO()):
+                ir = parse_docstring(t, emit_default_doc=False)
+        except Exception:  # noqa
+            continue
+        n += 1
+        names, mnames = list(ir["params"].keys()), [x[0] for x in m[1]]
+        if names != mnames or (ir["returns"] is None) != (m[2] is None):
+            bad.append({"input": t, "impl": [names, ir["returns"] is not None], "model": [mnames, m[2] is not None]})
+    return bad, n
+
+
 def run(ctx):
     status = coqbuild.prove("C14", THEOREMS)
     rng = ctx.rng
@@ -300,8 +323,16 @@ def run(ctx):
             ctx.item(it["cls"], {"stage": "implementation-side property (well-formedness of the returned IR)",
                                  "clause": it["cls"].split("/")[1],
                                  "input": {k: c[k] for k in c if k in ("kind", "style", "doc", "src", "ir", "via")}, "detail": it["detail"]})
+    # Model/RestDoc.v parse_rest against the docstring parser on arbitrary token text (the domain of C14_rest_names_once_and_star_free
+    # is every string): the parameter names, in order, and whether a return entry exists -- whenever the parser returns
+    wild = ["".join(rng.choice(REST_WILD) for _ in range(rng.randint(0, 12))) for _ in range(600 if ctx.quick else 20000)]
+    wild.append(":param x: a :param **kw: b :param x: c :param *args: d :type kw: ```dict```")
+    rest_bad, rest_n = rest_names_tie(wild)
     if not ctx.violations:
-        if san:
+        if rest_bad:
+            ctx.violation({"stage": "correspondence: Model/RestDoc.v parse_rest (names, return entry) vs parse_docstring on arbitrary text",
+                           "detail": rest_bad[:3], "n_disagreements": len(rest_bad)}, no_input=True)
+        elif san:
             ctx.violation({"stage": "correspondence: Model/NameSan.v sanitise_name vs _set_name_and_type", "input": san[0]["input"],
                            "impl_output": san[0]["impl"], "model_output": san[0]["model"]}, no_input=True)
         elif not status["ok"]:
@@ -319,7 +350,8 @@ def run(ctx):
                 "argparse/SQLAlchemy/JSON-schema/pydantic/class/function artefacts emitted from IRs, and token-alphabet text; "
                 "non-trivial = the parser returned (its result was checked)",
         "parser_returned": agg["returned"], "parser_raised": agg["raised"], "input_distribution": by_kind,
-        "name_sanitise_disagreements": len(san), "traces_validated_against_impl": agg["returned"],
+        "name_sanitise_disagreements": len(san), "rest_parser_texts_compared_with_model": rest_n, "rest_parser_disagreements": len(rest_bad),
+        "traces_validated_against_impl": agg["returned"] + rest_n,
         "samples": [cases[0].get("doc"), cases[1].get("src")],
         "build": {k: status[k] for k in ("build_s", "forbidden")},
     }
